@@ -5,6 +5,9 @@ Development aid, not a registered command:  seed_matrix.py [seed-id ...]"""
 import json, os, subprocess, sys, re
 
 ROOT = '/verif/seeded'
+NEG = {'neg-1-1': ['C05', 'C03', 'C15'], 'neg-1-2': ['C09', 'C12', 'C02', 'C08'], 'neg-1-3': ['C02', 'C11', 'C13', 'C01'], 'neg-2-1': ['C05', 'C03', 'C04'],
+       'neg-2-2': ['C01', 'C06', 'C10', 'C07'], 'neg-2-3': ['C15', 'C05', 'C04', 'C03'], 'neg-3-1': ['C05', 'C15', 'C04', 'C03'], 'neg-3-2': ['C09', 'C08', 'C12'],
+       'neg-3-3': ['C02', 'C11', 'C08']}
 EXTRA = {
     'C04-m1': ['C13'], 'C05-m1': ['C04', 'C13'], 'C13-m2': ['C05'], 'C12-m2': ['C09'], 'C08-m2': ['C01'], 'C10-m1': ['C01', 'C06'],
     'C11-m2': ['C02'], 'C06-m2': ['C01'], 'C04-m2': ['C05', 'C12'], 'C05-m2': ['C04', 'C12'], 'C09-m2': ['C13'], 'C15-m2': ['C13'],
@@ -18,6 +21,22 @@ def main():
     for sid in ids:
         d = os.path.join(ROOT, sid)
         if not os.path.exists(os.path.join(d, 'patch.diff')):
+            continue
+        if sid.startswith('neg-'):
+            patch = os.path.join(d, 'patch_lib_only.diff') if os.path.exists(os.path.join(d, 'patch_lib_only.diff')) else os.path.join(d, 'patch.diff')
+            props = NEG[sid]
+            r = subprocess.run(['/verif/selftest/run_mutant.sh', patch] + props, capture_output=True, text=True)
+            res = {}
+            for m in re.finditer(r'^check (\S+) exit=(\d+) (\d+) violation lines;(.*)$', r.stdout, re.M):
+                res[m.group(1)] = dict(exit=int(m.group(2)), violation_lines=int(m.group(3)), first=m.group(4).strip()[:300])
+            meta = dict(id=sid, kind='behaviour-preserving change (the properties still hold): the checks must stay quiet',
+                        origin='independent sub-agent asked for refactorings / optimisations / reworded messages that keep the behaviour',
+                        what=' '.join(open(os.path.join(d, 'README.txt')).read().split())[:600],
+                        existing_tests_with_patch='pass' if 'repo-tests: pass' in r.stdout else 'FAIL (the patch rewords messages the tests compare; see patch.diff for the test edits)',
+                        ran='git -C /repo apply <patch>; ./check <P> quick for P in %s; git -C /repo checkout -- .' % props,
+                        results=res, false_alarms=[p for p, v in res.items() if v['exit'] == 1], inconclusive=[p for p, v in res.items() if v['exit'] == 2])
+            json.dump(meta, open(os.path.join(d, 'meta.json'), 'w'), indent=1)
+            print(sid, {p: v['exit'] for p, v in res.items()}, flush=True)
             continue
         if sid.startswith('regress-'):
             prop = open(os.path.join(d, 'prop.txt')).read().strip()
